@@ -84,6 +84,11 @@ func (b *Backends) Shrink() {
 					b.shards[del.shard][del.ID] = del
 				}
 				b.items[name] = del
+				if b.DefaultBackend == add {
+					// the default backend should continue to be
+					// the instance that the model is made of
+					b.DefaultBackend = del
+				}
 				delete(b.itemsAdd, name)
 				delete(b.itemsDel, name)
 				changed = true
